@@ -36,4 +36,15 @@ VARIANTS = [
       "            coordsD, weightsD = legendre.leggauss(d // 2 + 1)\n"),
     V("C09-n21-moment-rule-generous", "neutral", "            coordsD, weightsD = legendre.leggauss(int((d+2)/2))\n",
       "            coordsD, weightsD = legendre.leggauss(d + 1)\n"),
+    # D9 / D10 (round 3)
+    V("C09-b50-degree-search-starts-above-fallback", "break", "        d = d_old = 1\n        weights_1D_old = np.zeros(len(grid_1D))\n",
+      "        d_old = 1\n        d = 2\n        weights_1D_old = np.zeros(len(grid_1D))\n", "C09.D9", file="Grid.py"),
+    V("C09-b51-sorted-search-without-equality", "break",
+      "                if x_basis in grid_1D:\n                    if self.modified_basis:\n                        spline = HierarchicalNotAKnotBSplineModified(self.p, i, l, knots, a, b)\n                    else:\n                        spline = HierarchicalNotAKnotBSpline(self.p, i, l, knots)\n                    index = grid_1D.index(x_basis)\n",
+      "                index = int(np.searchsorted(grid_1D, x_basis))\n                if index < len(grid_1D):\n                    if self.modified_basis:\n                        spline = HierarchicalNotAKnotBSplineModified(self.p, i, l, knots, a, b)\n                    else:\n                        spline = HierarchicalNotAKnotBSpline(self.p, i, l, knots)\n",
+      "C09.D10", file="Grid.py"),
+    V("C09-n51-sorted-search-with-equality", "neutral",
+      "                if x_basis in grid_1D:\n                    if self.modified_basis:\n                        spline = HierarchicalNotAKnotBSplineModified(self.p, i, l, knots, a, b)\n                    else:\n                        spline = HierarchicalNotAKnotBSpline(self.p, i, l, knots)\n                    index = grid_1D.index(x_basis)\n",
+      "                index = np.searchsorted(grid_1D, x_basis)\n                if index < len(grid_1D) and grid_1D[index] == x_basis:\n                    if self.modified_basis:\n                        spline = HierarchicalNotAKnotBSplineModified(self.p, i, l, knots, a, b)\n                    else:\n                        spline = HierarchicalNotAKnotBSpline(self.p, i, l, knots)\n",
+      file="Grid.py"),
 ]
